@@ -29,6 +29,7 @@ type Case struct {
 	Style     string   // style the specification predicts for the header ("return" | "arg"), for role mapping
 	Decls     string   // declarations for the untagged sibling file
 	SetupDecl string   // declarations placed in the setup file itself (before the interface)
+	Trailer   string   // text placed at the end of the setup file (a further converter interface of the case's own)
 	IntfNotes []string // interface-level notation lines; forces the case to travel alone
 	Notes     []string // method doc lines without the leading "// "
 	Method    string   // method spec, e.g. "M12(*S12) *D12"
@@ -65,9 +66,9 @@ type Result struct {
 
 // Verdict is a family's judgement of one result.
 type Verdict struct {
-	OK        bool
-	Deviation string // named deviation (known finding id) the mismatch falls under, if any
-	What      string
+	OK         bool
+	Deviation  string // named deviation (known finding id) the mismatch falls under, if any
+	What       string
 	Nontrivial string // non-empty: key under which this case counts as distinct non-trivial
 }
 
@@ -308,6 +309,9 @@ func render(opt *Options, dir, pkg string, cases []*Case) (files map[string]stri
 		body.WriteString("}\n")
 	}
 	setup.WriteString(body.String())
+	for _, c := range cases {
+		setup.WriteString(c.Trailer)
+	}
 	var sibHead strings.Builder
 	sibHead.WriteString("package " + pkg + "\n\n")
 	sibText := opt.Local + "\n" + sib.String()
